@@ -322,7 +322,7 @@ def main_check(prop, tier, seed, module, replay=None):
             ctx.notes["regenerated"] = translate.run_all(only=meta.get("translators"))
         except translate.TranslateError as e:
             ctx.proof_failures.append({"theorem": "translator", "msg": str(e)[:500]})
-        targets = ["Pyrealb.Props." + prop, ctx.driver]
+        targets = ["Pyrealb.Props." + prop, ctx.driver] + meta.get("extra_modules", [])
         ok, log, fails = lake_build(targets)
         build_ok = ok
         broken = []
